@@ -7,7 +7,7 @@
        MissedKeepAlive) at a moment an id is unanswered, no later than P after it was sent.
    P = KEEP_ALIVE_INTERVAL (from the source) * 1000 ms. *)
 From Passage Require Import Lib.Bytes Codec.Desc Gen.PacketsGen Gen.ConstsGen Conn.Types Conn.Prog Conn.Sem1
-  Conn.Monitor Conn.KeepAlive Conn.KeepAliveProofs.
+  Conn.Monitor Conn.KeepAlive Conn.KeepAliveProofs Conn.KeepAliveWhole Conn.KeepAliveWholeProofs Conn.Walk_C07.
 
 Theorem C07_period_in_range : 15 <= keep_alive_interval <= 20 /\ P = keep_alive_interval * 1000.
 Proof. split; [vm_compute; split; discriminate | reflexivity]. Qed.
@@ -42,7 +42,216 @@ Theorem C07_tick : forall e loc tt dl ka nka,
   end.
 Proof. intros e loc tt dl [x|] nka; unfold tick_at; [destruct (fst (e_res e (CLocalize loc key_timeout)))|]; exact I. Qed.
 
+(* ---------------------------------------------------------------------------------- *)
+(* THE WHOLE CONNECTION.  For every oracle behaviour, configuration, environment (all adapter
+   results and latencies, fresh values, clock) and every inbox (any frames at any times - no
+   ordering or well-formedness assumption), the timed monitor accepts the whole trace of the
+   whole handler from Login Acknowledged on.  Proved by a timed predicate transformer on
+   programs (Conn/KeepAliveWhole.v: tsafe; soundness tsafe_sound by induction on the program,
+   using C07_loop for the Client Information wait and the three races) and a static walk over
+   [listen] (Conn/Walk_C07.v). *)
+Theorem C07_whole : forall o cfg e ib, c07_from_config (run1 o cfg e ib) = true.
+Proof. exact run1_c07_whole. Qed.
+
+(* why the phase starts well: whenever receive_packet(false) returns a frame at t (Login
+   Acknowledged in particular), the next deadline of the interval lies in (t, t + P], provided
+   it was at most P ahead before - which holds from the start of the connection (0 <= 0 + P)
+   and is preserved by every read, adapter call and write before Login Success *)
+Theorem C07_deadline_after_read : forall d now t,
+  now <= t -> d <= now + P -> t < skip_ticks d now t <= t + P.
+Proof. exact skip_ticks_bounds. Qed.
+
+(* c07_step bounds the distance between two Keep Alives only when the second one is sent; the
+   gap monitor c07g_step additionally rejects ANY event later than P after the last Keep Alive
+   (or after the phase began) until the selection adapter has answered: "at least every P"
+   however long discovery, filtering and selection take.  It is strictly stronger
+   (C07Ex.gap_monitor_stronger) and also holds for the whole connection. *)
+Theorem C07_whole_gap : forall o cfg e ib, c07g_from_config (run1 o cfg e ib) = true.
+Proof. exact run1_c07_gap. Qed.
+
+Theorem C07_gap_implies_whole : forall tr, c07g_from_config tr = true -> c07_from_config tr = true.
+Proof. exact c07g_from_config_implies. Qed.
+
+(* the same in plain terms: cut the trace at the first Login Success, the frame consumed next
+   (Login Acknowledged, at t1) and any later event at T with no selection answer before it
+   (in particular the selection answer itself): the instants at which Keep Alives were sent
+   in between cover [t1, T] in steps of at most P *)
+Theorem C07_every_period : forall o cfg e ib pre t pk vs t1 id body mid T ev post,
+  run1 o cfg e ib = pre ++ (t, TSend pk vs) :: (t1, TRecv id body) :: mid ++ (T, ev) :: post ->
+  no_ls pre = true -> is_ls pk = true -> no_select_res mid = true ->
+  covered t1 (ka_send_times mid) T.
+Proof. exact run1_keepalive_every_period. Qed.
+
+(* ---------------------------------------------------------------------------------- *)
+(* THE COOPERATIVE CLIENT IS NOT DROPPED, however long the adapter takes.  [cooperative] is a
+   boolean, client-side description (it does not mention the loop): every frame arriving
+   before the completion instant h is a well-formed frame a race ignores, and arrives while
+   [alive_step] still holds, i.e. each Keep Alive is echoed with its id before the next one
+   is due.  now <= dl is the invariant of the phase (re-established by C07_loop). *)
+Theorem C07_survive : forall cfg e loc h ib now dl ka nka nnow,
+  now <= dl ->
+  cooperative cfg e h ib now dl ka nka = true ->
+  exists tr s', ka_loop cfg e false loc (Some h) ib now dl ka nka nnow = (tr, KDone s')
+                /\ s_now s' = Z.max now h /\ s_now s' <= s_dl s'.
+Proof. exact ka_loop_survive. Qed.
+
+(* the client-side description is exactly what the ticks of the model do *)
+Theorem C07_alive_step_exact : forall e loc now dl ka nka t,
+  now <= dl -> snd (ticks_until e loc now dl ka nka t) = alive_step e dl ka nka t.
+Proof. exact ticks_until_alive. Qed.
+
+(* seen from the program: the race hands on to its continuation (chainable: the invariant
+   now <= dl holds again), at the completion instant, all loop events strictly before it *)
+Theorem C07_survive_exec : forall cfg e loc c k s,
+  let r := fst (e_res e c) in
+  let h := s_now s + Z.max (snd (e_res e c)) 1 in
+  s_now s <= s_dl s ->
+  cooperative cfg e h (s_in s) (s_now s) (s_dl s) (s_ka s) (s_nka s) = true ->
+  exists tr s',
+    exec cfg e (Race loc c k) s = (s_now s, TCall c) :: tr ++ (h, TRes c r) :: exec cfg e (k r) s'
+    /\ s_now s' = h /\ s_now s' <= s_dl s'
+    /\ Forall (fun ev : timed => fst ev < h) tr.
+Proof. exact exec_race_survive. Qed.
+
+(* cooperation composes over consecutive races: a client cooperative up to h survives a race
+   completing at any h' <= h and is still cooperative up to h in the state handed on *)
+Theorem C07_cooperative_split : forall cfg e loc h h' ib now dl ka nka nnow,
+  now <= dl -> h' <= h ->
+  cooperative cfg e h ib now dl ka nka = true ->
+  exists tr s', ka_loop cfg e false loc (Some h') ib now dl ka nka nnow = (tr, KDone s')
+                /\ s_now s' = Z.max now h' /\ s_now s' <= s_dl s'
+                /\ cooperative cfg e h (s_in s') (s_now s') (s_dl s') (s_ka s') (s_nka s') = true.
+Proof. exact cooperative_split. Qed.
+
+(* hence the whole of routing (Prog.routing: discovery, filtering, selection, cookies,
+   Transfer): a client cooperative up to the instant h3 at which selection answers is never
+   dropped, and is sent the Transfer to the selected target and the successful end AT h3,
+   however long the three adapters take; nothing in the trace is later than h3 *)
+Theorem C07_survive_routing : forall cfg e o host port proto should_auth session name uuid props loc rest s ts ts' tg,
+  let c1 := CDiscover in
+  let c2 := CFilter (cf_client cfg) host port proto name uuid ts in
+  let c3 := CSelect (cf_client cfg) host port proto name uuid ts' in
+  let h1 := s_now s + Z.max (snd (e_res e c1)) 1 in
+  let h2 := h1 + Z.max (snd (e_res e c2)) 1 in
+  let h3 := h2 + Z.max (snd (e_res e c3)) 1 in
+  fst (e_res e c1) = RTargets ts -> fst (e_res e c2) = RTargets ts' -> fst (e_res e c3) = RTarget (Some tg) ->
+  s_now s <= s_dl s ->
+  cooperative cfg e h3 (s_in s) (s_now s) (s_dl s) (s_ka s) (s_nka s) = true ->
+  exists body,
+    exec cfg e (routing o cfg host port proto should_auth session name uuid props (VB loc :: rest)) s =
+    body ++ [(h3, TSend configuration_cb_TransferPacket [VB (sa_ip (t_addr tg)); VZ (sa_port (t_addr tg))]);
+             (h3, TEnd OOk)]
+    /\ Forall (fun ev : timed => fst ev <= h3) body.
+Proof. exact routing_survive. Qed.
+
+(* ---------------------------------------------------------------------------------- *)
+(* THE UNRESPONSIVE CLIENT IS TIMED OUT.  Id x is unanswered, the next tick is due at dl, the
+   adapter (if any) completes later than dl, and every frame arriving before dl is one the
+   loop ignores without clearing x (no echo, an echo of a different id, other ignorable
+   frames): the trace is exactly those frames followed by the timeout sequence at dl - the
+   localized text is requested, the Disconnect is sent, the connection ends with
+   MissedKeepAlive (with the adapter error if the localization adapter fails) - and nothing
+   after it.  Both flavours of the loop (info = true: Client Information wait). *)
+Theorem C07_timeout : forall cfg e info loc hz x ib now dl nka nnow,
+  now <= dl -> later_than hz dl ->
+  unechoed cfg info (Some x) dl ib now = true ->
+  ka_loop cfg e info loc hz ib now dl (Some x) nka nnow =
+  (recvs_before dl ib now ++ timeout_trace e loc dl, KEnd (OErr KMissedKA)).
+Proof. exact ka_loop_timeout. Qed.
+
+(* from a state with nothing outstanding: the tick at dl sends the next fresh id, nothing
+   echoes it before dl + P, the tick at dl + P times the client out *)
+Theorem C07_silent : forall cfg e info loc hz ib now dl nka nnow,
+  now <= dl -> later_than hz (dl + P) ->
+  unechoed cfg info None dl ib now = true ->
+  (let (ib1, now1) := rest_after dl ib now in
+   unechoed cfg info (Some (be_dec (e_fresh e RKeepAlive nka))) (dl + P) ib1 now1 = true) ->
+  ka_loop cfg e info loc hz ib now dl None nka nnow =
+  (let (ib1, now1) := rest_after dl ib now in
+   recvs_before dl ib now ++ keepalive_trace e dl nka
+     ++ recvs_before (dl + P) ib1 now1 ++ timeout_trace e loc (dl + P),
+   KEnd (OErr KMissedKA)).
+Proof. exact ka_loop_silent. Qed.
+
+(* seen from the program: the whole rest of the connection's trace *)
+Theorem C07_timeout_exec_race : forall cfg e loc c k s x,
+  let h := s_now s + Z.max (snd (e_res e c)) 1 in
+  s_now s <= s_dl s -> s_ka s = Some x -> s_dl s < h ->
+  unechoed cfg false (Some x) (s_dl s) (s_in s) (s_now s) = true ->
+  exec cfg e (Race loc c k) s =
+  (s_now s, TCall c) :: recvs_before (s_dl s) (s_in s) (s_now s) ++ timeout_trace e loc (s_dl s).
+Proof. exact exec_race_timeout. Qed.
+
+Theorem C07_timeout_exec_waitinfo : forall cfg e loc k s x,
+  s_now s <= s_dl s -> s_ka s = Some x ->
+  unechoed cfg true (Some x) (s_dl s) (s_in s) (s_now s) = true ->
+  exec cfg e (WaitInfo loc k) s = recvs_before (s_dl s) (s_in s) (s_now s) ++ timeout_trace e loc (s_dl s).
+Proof. exact exec_waitinfo_timeout. Qed.
+
+(* ---------------------------------------------------------------------------------- *)
+(* TRANSFER AS SOON AS ROUTING COMPLETES.  When a race hands on, its continuation starts at
+   exactly the completion instant h = now + max(latency, 1) of the adapter, and every event
+   of the loop is strictly earlier. *)
+Theorem C07_transfer_after_routing : forall cfg e loc c k s tr s',
+  let r := fst (e_res e c) in
+  let h := s_now s + Z.max (snd (e_res e c)) 1 in
+  ka_loop cfg e false loc (Some h) (s_in s) (s_now s) (s_dl s) (s_ka s) (s_nka s) (s_nnow s) = (tr, KDone s') ->
+  exec cfg e (Race loc c k) s = (s_now s, TCall c) :: tr ++ (h, TRes c r) :: exec cfg e (k r) s'
+  /\ s_now s' = h
+  /\ Forall (fun ev : timed => fst ev < h) tr.
+Proof. exact exec_race_done. Qed.
+
+(* the continuation of the selection race IS select_k (by reflexivity) ... *)
+Theorem C07_routing_unfold : forall cfg o host port proto should_auth session name uuid props loc rest,
+  routing o cfg host port proto should_auth session name uuid props (VB loc :: rest) =
+  Race (Some loc) CDiscover (fun r =>
+    match r with
+    | RTargets ts =>
+      Race (Some loc) (CFilter (cf_client cfg) host port proto name uuid ts) (fun r =>
+        match r with
+        | RTargets ts' =>
+          Race (Some loc) (CSelect (cf_client cfg) host port proto name uuid ts')
+               (select_k o cfg host port should_auth session name uuid props (Some loc))
+        | _ => Ret (OErr KAdapter)
+        end)
+    | _ => Ret (OErr KAdapter)
+    end).
+Proof. exact routing_unfold. Qed.
+
+(* ... and when selection answers with a target at h, the cookies, the Transfer to that
+   target and the successful end all happen at h: no further waiting *)
+Theorem C07_transfer_instant : forall cfg e o host port proto should_auth session name uuid props loc ts s tr s' t,
+  let c := CSelect (cf_client cfg) host port proto name uuid ts in
+  let h := s_now s + Z.max (snd (e_res e c)) 1 in
+  fst (e_res e c) = RTarget (Some t) ->
+  ka_loop cfg e false (Some loc) (Some h) (s_in s) (s_now s) (s_dl s) (s_ka s) (s_nka s) (s_nnow s) = (tr, KDone s') ->
+  exists mid,
+    exec cfg e (Race (Some loc) c (select_k o cfg host port should_auth session name uuid props (Some loc))) s =
+    (s_now s, TCall c) :: tr ++ (h, TRes c (RTarget (Some t))) :: mid
+      ++ [(h, TSend configuration_cb_TransferPacket [VB (sa_ip (t_addr t)); VZ (sa_port (t_addr t))]);
+          (h, TEnd OOk)]
+    /\ Forall (fun ev : timed => fst ev < h) tr
+    /\ Forall (fun ev : timed => fst ev = h) mid.
+Proof. exact exec_select_transfer. Qed.
+
 Print Assumptions C07_period_in_range.
 Print Assumptions C07_fire_on_time.
 Print Assumptions C07_loop.
 Print Assumptions C07_tick.
+Print Assumptions C07_whole.
+Print Assumptions C07_whole_gap.
+Print Assumptions C07_gap_implies_whole.
+Print Assumptions C07_every_period.
+Print Assumptions C07_survive.
+Print Assumptions C07_alive_step_exact.
+Print Assumptions C07_survive_exec.
+Print Assumptions C07_timeout.
+Print Assumptions C07_silent.
+Print Assumptions C07_timeout_exec_race.
+Print Assumptions C07_timeout_exec_waitinfo.
+Print Assumptions C07_transfer_after_routing.
+Print Assumptions C07_routing_unfold.
+Print Assumptions C07_transfer_instant.
+Print Assumptions C07_deadline_after_read.
+Print Assumptions C07_cooperative_split.
+Print Assumptions C07_survive_routing.
